@@ -127,6 +127,32 @@ def c07_mix(d):
   cls = getattr(quantizers, rep["class"])
   bits, integer, f = int(rep["bits"]), int(rep["integer"]), float(F(rep["f"]))
   x = f32(F(w.get("x", 0)))
+  if str(rep.get("alpha", "")).startswith("auto"):
+    # data-dependent scale: whole tensors (the witness element placed in a seeded random tensor, plus two more tensors)
+    import tensorflow as tf
+    rng = np.random.RandomState(3)
+    shape = tuple(rep.get("shape", [3, 4]))
+    worst = None
+    for trial in range(3):
+      t = rng.uniform(-4, 4, size=shape).astype(np.float32)
+      if trial == 0:
+        t.reshape(-1)[0] = np.float32(float(x))
+      outs = []
+      for ff in (f, 0.0, 1.0):
+        q = cls(bits, integer, 1, 1, alpha=rep["alpha"], qnoise_factor=ff, use_ste=bool(rep["use_ste"]))
+        outs.append(np.array(q(tf.constant(t)), dtype=np.float64))
+      yf_, y0_, y1_ = outs
+      if d["clause"] == "mix":
+        dev = float(np.max(np.abs(yf_ - (y0_ + f * (y1_ - y0_)))))
+      elif d["clause"] == "f0":
+        dev = float(np.max(np.abs(y0_ - t.astype(np.float64))))
+      else:
+        return {"status": "unsupported"}
+      if worst is None or dev > worst[0]:
+        worst = (dev, trial)
+    return {"status": "confirmed" if worst[0] > 1e-4 else "refuted",
+            "observed": {"max_deviation": worst[0], "tensor": worst[1], "bits": bits, "integer": integer, "f": f},
+            "expected": "q_f = q_0 + f*(q_1 - q_0) and q_0(x) = x on whole tensors"}
 
   def mk(ff):
     kw = {"qnoise_factor": ff}
